@@ -33,6 +33,10 @@ CLAIMED = {
    "Every structural shape S(d,w) (7 types, empty members at every position, nesting to depth 2 quick / 4 thorough) x 4 coordinate types x float-class ordinates at every alphabet rotation x per-element byte-order vectors (all 2^e up to 8 elements, else <=2 deviations) x trailing bytes: AsBinary/AppendWKB compared byte for byte with an independent WKB writer, UnmarshalWKB of the reference bytes compared with the original by a structural walker on float bits, re-encoding compared, input buffer checked for mutation and aliasing; Value/Scan of all concrete types, Geometry and NullGeometry for every source type and every wrong destination type.",
    "Trust: refcodec/wkb.go (encoding/binary only) and refcodec/node.go (accessor walker). Big-endian hosts cannot be exercised on this box; XY ordinates are finite by the property's domain.",
    "bounded-exhaustive enumeration of shapes x configurations on the real code against an independent reference codec", "4/C04"),
+ "C05": ("model_checking",
+   "Every structural shape S(d,w) x 4 coordinate types x finite float classes at every rotation, plus the zero value of all 8 Go types: the AsText token stream is compared with one derived from the OGC BNF by an independent printer, AppendWKT with prefix+AsText, UnmarshalWKT(AsText) with the original by the structural walker on float bits and with the WKB decode, trailing tokens must be rejected, and every re-spelling inside a deviation bound is parsed back: each token boundary x each separator (pairs in thorough), global separator policies, keyword case, bare MultiPoint members, exponent-form and zero-padded numerals.",
+   "Trust: refcodec/wkt.go (printer + lexer) and strconv's shortest formatting. Non-ASCII whitespace and case-insensitivity of Z/M/EMPTY are not claimed by the property and not explored.",
+   "bounded-exhaustive enumeration of shapes x token-level re-spellings (deviation-bounded) on the real code against an independent reference printer", "4/C05"),
 }
 
 PENDING = {}
